@@ -353,9 +353,12 @@ func runC03(c *Ctx) {
 		for _, br := range g.Find(func(n ast.Node) bool { b, ok := n.(*ast.BranchStmt); return ok && b.Tok == token.CONTINUE }) {
 			ok := false
 			for _, a := range g.AtomsAt(br.Loc) {
-				if be, isB := ast.Unparen(a.Expr).(*ast.BinaryExpr); isB && be.Op == token.EQL && a.Val &&
-					len(core.CallsTo(info, be.X, false, "sync/atomic.Int64.Load")) == 1 && mentionsSel(be.X, "Completed") && selName(be.Y) == "Size" {
-					ok = true
+				if be, isB := ast.Unparen(a.Expr).(*ast.BinaryExpr); isB && be.Op == token.EQL && a.Val {
+					for _, pair := range [][2]ast.Expr{{be.X, be.Y}, {be.Y, be.X}} { // either operand order
+						if len(core.CallsTo(info, pair[0], false, "sync/atomic.Int64.Load")) == 1 && mentionsSel(pair[0], "Completed") && selName(pair[1]) == "Size" {
+							ok = true
+						}
+					}
 				}
 			}
 			c.Check("C03-R3", key+" part skipped only when complete", c.Pos(br.Node), ok, "a part may be skipped only on the true edge of Completed.Load() == Size")
